@@ -36,7 +36,7 @@ TIERS = {
     "quick": {"worlds": 900, "wall": 500, "shrink_budget": 60,
               "required_probes": ["c17.run_completed", "c17.barrier_event_mixed", "c17.reuse_log_then_identity",
                                   "c17.multilevel_run", "c17.pool_run", "c17.default_happened", "c17.default_mixed",
-                                  "c17.stochastic_time_grid"]},
+                                  "c17.stochastic_time_grid", "c17.shared_control_variates"]},
     "thorough": {"worlds": 40000, "wall": 3300, "shrink_budget": 150,
                  "required_probes": ["c17.run_completed", "c17.barrier_event_mixed", "c17.reuse_log_then_identity",
                                      "c17.multilevel_run", "c17.pool_run", "c17.default_happened",
@@ -84,6 +84,7 @@ def generate(seed, tier="quick"):
     vol = r.choice([0.03, 0.08, 0.15])
     return {"world_seed": seed, "product": spec, "x0": x0, "runs": runs, "vol": vol, "df": r.choice([1.0, 0.9]),
             "drift": r.choice([0.0, 0.0, 0.08, -0.15]), "jitter": r.random() < 0.4,
+            "control": (r.choice(["spot_forward", "logspot_forward", "logspot_forward"]) if (kind not in ("multi", "rates", "ntd", "cds") and r.random() < 0.35) else None),
             "pseed": r.randrange(10 ** 9), "jump_prob": r.choice([0.0, 0.3, 0.6]),
             "env": {"cpu_count": 4, "path_cost": 1e-5, "spawn_cost": 1e-4}}
 
@@ -233,6 +234,19 @@ def execute(wd, sc):
 
         product.payoff_underlying = Spot()
     pristine = copy.deepcopy(product)
+    cv_shared, cv_pristine = None, None
+    if sc.get("control"):
+        # ONE ControlVariates object (and one control product) shared by every run of the session
+        from rpylib.product.payoff import Forward as _Fwd
+        from rpylib.product.product import Product as _Prod, ControlVariates as _CV
+        from rpylib.product.underlying import Spot as _Spot, LogSpot as _LogSpot
+
+        if sc["control"] == "spot_forward":
+            cprod = _Prod(payoff_underlying=_Spot(), payoff=_Fwd(strike=0.9 * sc["x0"]), maturity=T)
+        else:
+            cprod = _Prod(payoff_underlying=_LogSpot(), payoff=_Fwd(strike=float(np.log(0.9 * sc["x0"]))), maturity=T)
+        cv_pristine = copy.deepcopy(cprod)
+        cv_shared = _CV([cprod], [0.123])
     rng = sub_rng(sc["pseed"], "c17.paths")
     kind = spec["kind"]
     pattern = []
@@ -257,7 +271,9 @@ def execute(wd, sc):
         try:
             if run["engine"] == "standard":
                 proc = stubs.ScriptedPathProcess(base, times, log, df_value=df, drift=drift)
-                cfg = ConfigurationStandard(mc_paths=n, nb_of_processes=run["nproc"])
+                cfg = ConfigurationStandard(mc_paths=n, nb_of_processes=run["nproc"], control_variates=cv_shared)
+                if cv_shared is not None:
+                    wd.probes["c17.shared_control_variates"] += 1
                 stats = StdEngine(cfg, proc).price(product)
             else:
                 cp = stubs.ScriptedPathCoupling(base, times, log, df_value=df, names=spec.get("names"), drift=drift)
@@ -282,6 +298,21 @@ def execute(wd, sc):
         if run["engine"] == "standard":
             stored = np.asarray(stats._payoff_statistics.stats, dtype=float)[:, 0]
             groups = [(None, recs, stored, None)]
+            if cv_shared is not None:
+                # the stored control samples must be the control product's value on each path, whatever the session did before
+                cstore = np.asarray(stats._control_variates_statistics.stats, dtype=float).reshape(len(stored), -1)[:, 0]
+                if len(recs) == len(cstore):
+                    for i, rec_ in enumerate(recs):
+                        ptimes_ = np.asarray(rec_["times"], dtype=float)
+                        path_ = base + drift * ptimes_ + np.asarray(rec_["diff"]) + np.asarray(rec_["jump"])
+                        cval, _ = _evaluate(cv_pristine, run["rep"], ptimes_, path_, np.asarray(rec_["jump"]))
+                        exp_c = float(np.ravel(cval)[0]) * df
+                        if not np.isclose(cstore[i], exp_c, rtol=1e-12, atol=1e-12 * (1 + abs(exp_c))):
+                            anylog = any(r_["rep"] == "LOG" for r_ in sc["runs"][:ri])
+                            hist2 = "first-run" if ri == 0 else ("after-a-LOG-run" if anylog else "after-IDENTITY-runs")
+                            add(f"C17.history|stored control-variate payoff differs from the value of a fresh copy of the control product on the same path|{sc['control']}|{hist2}|rep={run['rep']}",
+                                {"run": ri, "index": i, "stored": float(cstore[i]), "fresh_copy": exp_c})
+                            break
         else:
             groups = []
             for lvl in range(run["max_level"] + 1):
